@@ -1,6 +1,143 @@
-/-! Driver mode `mx` (stub, filled in by its check). -/
+import Sessions.Mutex.Exec
+/-! Driver mode `mx`: `driver mx <logfile>...` reads logs written by the Go harness in mode `mx` (the real
+`mutexes.go` under the virtual clock) and runs the conformance checkers of `Sessions/Mutex/Exec.lean` on them — the
+checkers `Mx.reach_conforms` / `Mx.reach_exclusion_log` prove complete for the transition system in which
+`Mx.mutex_exclusion`, `Mx.deadlock_free`, … hold.
+
+Log lines are `<t> <words…>`; the ones read here are
+
+* manager events (from the add-only hook in the manager loop): `acq k locksBefore`, `rel k locksBefore`,
+  `tok k locks` (just before the token is sent: after an `acq` the value is still `locksBefore`, after a `rel` it is the
+  value after the decrement), `purge k locks`.  An `acq`/`rel` followed by its `tok` becomes `Ev.acq k l true` /
+  `Ev.rel k l true`, one that is not followed by a `tok` becomes `… false`.  A `tok` that does not belong to the event
+  before it, or carries another `locks` value than that event implies, is itself a non-conforming event.
+* caller events: `ret L g k` (`Lock(k)` returned in goroutine `g`) and `call U g k` (`g` calls the matching `Unlock`).
+
+Output per log (the index counts events of the respective list from 0, `line` is the line of the log file, from 1):
+`events <manager events> <caller events>`, `trace ok|fail <index> line <n>`, `proviso ok|fail <index> line <n>`,
+`exclusion ok|fail <index> line <n>`, `discipline ok|fail <index> line <n>`. -/
 namespace Drv
-def runMx (_args : List String) : IO UInt32 := do
-  IO.eprintln "mode not implemented"
-  return 2
+open Mx.Exec
+
+/-- manager event waiting for its possible `tok`: kind (`true` = acq), key, locksBefore, line. -/
+structure MxPending where
+  isAcq : Bool
+  k : Nat
+  l : Nat
+  line : Nat
+
+structure MxAcc where
+  evs : Array Ev := #[]
+  evLines : Array Nat := #[]
+  calls : Array CallEv := #[]
+  callLines : Array Nat := #[]
+  pending : Option MxPending := none
+  /-- first manager line that is not a well-formed event: (index it would have had, line) -/
+  bad : Option (Nat × Nat) := none
+
+def MxAcc.push (a : MxAcc) (e : Ev) (line : Nat) : MxAcc :=
+  { a with evs := a.evs.push e, evLines := a.evLines.push line }
+
+def MxAcc.flush (a : MxAcc) : MxAcc :=
+  match a.pending with
+  | none => a
+  | some p =>
+    let a := { a with pending := none }
+    if p.isAcq then a.push (.acq p.k p.l false) p.line else a.push (.rel p.k p.l false) p.line
+
+def MxAcc.markBad (a : MxAcc) (line : Nat) : MxAcc :=
+  match a.bad with
+  | some _ => a
+  | none => { a with bad := some (a.evs.size + (if a.pending.isSome then 1 else 0), line) }
+
+/-- the event a `tok k l` completes, if it is the one the pending event implies. -/
+def MxAcc.tok (a : MxAcc) (k l line : Nat) : MxAcc :=
+  match a.pending with
+  | none => a.markBad line
+  | some p =>
+    let a' := { a with pending := none }
+    if p.k = k ∧ p.isAcq ∧ l = p.l then a'.push (.acq p.k p.l true) p.line
+    else if p.k = k ∧ !p.isAcq ∧ 0 < p.l ∧ l + 1 = p.l then a'.push (.rel p.k p.l true) p.line
+    else (a.flush).markBad line
+
+def mxLine (a : MxAcc) (lineNo : Nat) (l : String) : MxAcc :=
+  match (l.splitOn " ").filter (· ≠ "") with
+  | [_, "acq", k, n] =>
+    match parseEv ("acq " ++ k ++ " " ++ n ++ " 0") with
+    | some (.acq k n _) => { a.flush with pending := some ⟨true, k, n, lineNo⟩ }
+    | _ => a.flush.markBad lineNo
+  | [_, "rel", k, n] =>
+    match parseEv ("rel " ++ k ++ " " ++ n ++ " 0") with
+    | some (.rel k n _) => { a.flush with pending := some ⟨false, k, n, lineNo⟩ }
+    | _ => a.flush.markBad lineNo
+  | [_, "tok", k, n] =>
+    match k.toNat?, n.toNat? with
+    | some k, some n => a.tok k n lineNo
+    | _, _ => a.flush.markBad lineNo
+  | [_, "purge", k, n] =>
+    match parseEv ("purge " ++ k ++ " " ++ n) with
+    | some e => a.flush.push e lineNo
+    | none => a.flush.markBad lineNo
+  | [_, "ret", "L", g, k] =>
+    match parseCallEv ("lockret " ++ g ++ " " ++ k) with
+    | some e => { a with calls := a.calls.push e, callLines := a.callLines.push lineNo }
+    | none => a
+  | [_, "call", "U", g, k] =>
+    match parseCallEv ("unlock " ++ g ++ " " ++ k) with
+    | some e => { a with calls := a.calls.push e, callLines := a.callLines.push lineNo }
+    | none => a
+  | _ => a
+
+def parseMxLog (lines : Array String) : MxAcc := Id.run do
+  let mut a : MxAcc := {}
+  let mut n := 0
+  for l in lines do
+    n := n + 1
+    a := mxLine a n l
+  return a.flush
+
+def verdict (name : String) (r : Option Nat) (lines : Array Nat) : String :=
+  match r with
+  | none => name ++ " ok"
+  | some i => name ++ " fail " ++ toString i ++ " line " ++ toString (lines.getD i 0)
+
+/-- the earlier of the checker's verdict and a malformed manager line. -/
+def mergeBad (r : Option Nat) (bad : Option (Nat × Nat)) (lines : Array Nat) : Option Nat × Array Nat :=
+  match r, bad with
+  | r, none => (r, lines)
+  | none, some (i, ln) => (some i, (lines.extract 0 i).push ln)
+  | some j, some (i, ln) => if j < i then (some j, lines) else (some i, (lines.extract 0 i).push ln)
+
+def mxReport (path : String) (many : Bool) : IO Unit := do
+  let out ← IO.getStdout
+  let lines ← IO.FS.lines path
+  let a := parseMxLog lines
+  let evs := a.evs.toList
+  let calls := a.calls.toList
+  if many then out.putStrLn ("file " ++ path)
+  out.putStrLn ("events " ++ toString evs.length ++ " " ++ toString calls.length)
+  let (tr, trLines) := mergeBad (checkTrace evs) a.bad a.evLines
+  out.putStrLn (verdict "trace" tr trLines)
+  out.putStrLn (verdict "proviso" (checkProviso evs) a.evLines)
+  out.putStrLn (verdict "exclusion" (checkExclusion calls) a.callLines)
+  out.putStrLn (verdict "discipline" (checkDiscipline calls) a.callLines)
+
+def runMx (args : List String) : IO UInt32 := do
+  match args with
+  | [] => IO.eprintln "usage: driver mx <logfile>..."; return 2
+  | [p] => mxReport p false; return 0
+  | ps => for p in ps do mxReport p true
+          return 0
+
+/-! sanity: the conversion on the shapes the harness writes -/
+
+#guard (parseMxLog #["0 call L 0 1", "0 acq 1 0", "0 tok 1 0", "0 ret L 0 1", "5 call L 1 1", "5 acq 1 1",
+    "9 call U 0 1", "9 rel 1 2", "9 tok 1 1", "9 ret L 1 1", "9 call U 1 1", "9 rel 1 1", "9 purge 1 0"]).evs.toList
+    == [.acq 1 0 true, .acq 1 1 false, .rel 1 2 true, .rel 1 1 false, .purgeDel 1 0]
+#guard (parseMxLog #["0 acq 1 0", "0 tok 1 0", "0 ret L 0 1", "9 call U 0 1", "9 ret L 1 1"]).calls.toList
+    == [.lockRet 0 1, .unlockCall 0 1, .lockRet 1 1]
+-- a token with the wrong `locks` value is a malformed manager line, reported right after the event it follows
+#guard (parseMxLog #["0 acq 1 0", "0 tok 1 0", "9 rel 1 1", "9 tok 1 1"]).bad == some (2, 4)
+#guard (parseMxLog #["0 tok 1 0"]).bad == some (0, 1)
+
 end Drv
